@@ -810,7 +810,13 @@ impl btdht::SocketTrait for SimSocket {
                 let ord = n.link_ord.get(&(self.addr, *target)).copied().unwrap_or(0);
                 if !is_loop && n.roll(&self.addr, target, ord, 24) % PPM < ppm as u64 {
                     n.bump("fault_worker_stall");
-                    1 + n.roll(&self.addr, target, ord, 25) % n.cfg.worker_stall_max_ms.max(1)
+                    let ms = 1 + n.roll(&self.addr, target, ord, 25) % n.cfg.worker_stall_max_ms.max(1);
+                    // recorded for the oracles: the worker acts on this send (marks the contact, takes
+                    // the answer) only when it gets the CPU back
+                    let tid = crate::krpc::Msg::parse(buf).map(|m| crate::krpc::hex(&m.t)).unwrap_or_default();
+                    let t = n.now();
+                    n.push(Ev::Fault { t, what: format!("worker_stall {} {} {}", target, tid, ms) });
+                    ms
                 } else {
                     0
                 }
